@@ -378,6 +378,9 @@ class FileDescriptor(_ConsumerMixin, _LogOwner):
         streaming producer is registered, it will be paused until the buffered
         data is written to the underlying file descriptor.
         """
+        # The chunks are visited more than once below; an iterator would be
+        # exhausted by the first visit.
+        iovec = list(iovec)
         for i in iovec:
             _dataMustBeBytes(i)
         if not self.connected or not iovec or self._writeDisconnected:
